@@ -56,6 +56,7 @@ func main() {
 	statsp := flag.String("stats", "", "stats file")
 	replay := flag.String("replay", "", "replay file (stream specific)")
 	workdir := flag.String("workdir", "", "scratch directory")
+	flag.StringVar(&rdpgwBinary, "rdpgw", "", "path of the rdpgw binary built from /repo (L3 streams)")
 	flag.Parse()
 	if flag.NArg() != 1 {
 		fmt.Fprintln(os.Stderr, "usage: harness [flags] <stream>")
